@@ -14,6 +14,7 @@ var ErrMuxerStopping = errors.New("muxer is stopping")
 // ErrBadTubeState indicates an operation was performed when a tube was in a state where that operation is not valid
 var ErrBadTubeState = errors.New("tube in bad state")
 
+var errMalformedFrame = errors.New("received malformed frame")                           // +checklocksignore
 var errFrameOutOfBounds = errors.New("received data frame out of receive window bounds") // +checklocksignore
 var errTooManyDuplicateACKs = errors.New("too many duplicate acknowledgements")          // +checklocksignore
 
